@@ -602,6 +602,14 @@ def run_exe(exe, case_lines):
 
 
 def file_job(job):
+    try: return file_job_(job)
+    except Exception as e:
+        import traceback
+        return {'rel': job.get('rel'), 'subs': job.get('subs'), 'runs': [], 'fchk': None, 'cells': 0, 'visits': 0,
+                'error': 'file_job raised %r: %s' % (e, traceback.format_exc()[-600:])}
+
+
+def file_job_(job):
     """job: rel, src | lines (hex list), subs (explicit list or None), sim (fallback), skips ('none'|'some'|'all'), fchk (bool), exe"""
     import t2listing as T
     import c05_file as F
@@ -629,12 +637,13 @@ def file_job(job):
             res['error'] = 'simulator unknown'; return res
         res['sim'] = sim
         idx_all = list(range(1, n)) + ([-1, -n] if n > 1 else [])
-        runs = [([], idx_all)] + [(s, [-1, 0] if n > 1 else []) for s in skip_subsets(names, job.get('skips', 'none'))]
+        runs = [([], idx_all)] + [(s, [-1] if n > 1 else []) for s in skip_subsets(names, job.get('skips', 'none'))]
         cases = [F.case_line(sim, s, ix, lines) for s, ix in runs]
         if job.get('fchk'):
-            tags = F.tag_lines(lines)
+            aut = str(sim).startswith('AUTOUGH')
+            tags = F.tag_lines_AUT(lines) if aut else F.tag_lines(lines)
             if tags is None: res['fchk'] = 'OUT no-outline'
-            else: cases.append(F.fchk_line(sim, tags, lines))
+            else: cases.append(F.achk_line(tags, lines) if aut else F.fchk_line(sim, tags, lines))
         out, err = run_exe(job['exe'], cases)
         if out is None or len(out) != len(cases):
             res['error'] = 'driver failed: ' + err; return res
